@@ -11,10 +11,11 @@ DECIDED = [
     "SPEC(builtin variant, the one the build uses): each aws_{add,mul}_{u32,u64}_{checked,saturating} returns / stores exactly a OP b when it fits its own result type and reports overflow / the type's maximum otherwise - decided for all operand values by abstract interpretation with the overflow builtins' specification",
     "SPEC(sub, size_t dispatchers, min/max): subtraction fails iff a < b and otherwise yields a - b (saturating: 0); size_t forms forward both operands in order to the 64-bit form and inherit its specification; min/max return one of their operands and bound both",
     "SPEC(portable fallback, add/sub): the division-free overflow predicates of math.fallback.inl are exact for all operands",
+    "SHIFT: in the portable bit scans (ctz) the mask `1 << idx` is at least as wide as the value it is and-ed with, so every bit of the value can be tested",
     "VARIANTS: the builtin, x86-64 assembly and portable variants define the same functions with identical signatures",
     "CONVERT: aws_timestamp_convert_u64 asserts non-zero frequencies before dividing, uses only saturating multiply/add on tick quantities, its one raw subtraction/multiplication cannot wrap (quotient lemma), and writes the remainder only under new < old and old % new == 0",
 ]
-NOT_DECIDED = ["the portable multiplication predicate (floor division by a variable)", "the assembly variants' bodies", "clz/ctz loops and the power-of-two bit tricks", "the numeric value of the conversion formula"]
+NOT_DECIDED = ["the portable multiplication predicate (floor division by a variable)", "the assembly variants' bodies", "the counts computed by the clz/ctz loops (only the mask widths) and the power-of-two bit tricks", "the numeric value of the conversion formula"]
 ASSUMPTIONS = ["__builtin_{add,mul}_overflow store the wrapped result and return whether the mathematical result does not fit the pointee type (compiler documentation)"]
 
 NAMES = ["aws_mul_u64_saturating", "aws_mul_u64_checked", "aws_mul_u32_saturating", "aws_mul_u32_checked", "aws_add_u64_checked", "aws_add_u64_saturating", "aws_add_u32_checked", "aws_add_u32_saturating"]
@@ -225,6 +226,38 @@ def fallback(ctx, R, replace):
         R.check(len(asms) >= 1, "VARIANTS", "asm-variant-is-asm:%s" % nm, "math.gcc_x64_asm.inl", "assembly variant present (instruction semantics not analysed)")
         for e in asms:
             early_clobber(R, asm, e, nm)
+    shift_widths(R, P2)
+
+
+def shift_widths(R, P2):
+    """bit scans of the portable variant: a mask `1 << idx` that is and-ed with the scanned value must be at least as wide
+    as that value, otherwise its upper bits can never be tested (and the scan stops early or never)"""
+    n = 0
+    for f in P2.fns.values():
+        if not f.name.startswith("fb_"):
+            continue
+        for b in f.blocks.values():
+            nodes = [y for el in b.elems for y in f.walk(el)] + ([y for y in f.walk(f.d(b.cond), follow_refs=True)] if b.cond is not None else [])
+            for x in nodes:
+                if x["k"] != "bin" or x["op"] != "&":
+                    continue
+                sides = [f.d(x["a"][0]), f.d(x["a"][1])]
+                for i in (0, 1):
+                    s = sides[i]
+                    while s is not None and s["k"] == "cast":
+                        s = f.d(s["a"][0])
+                    o = sides[1 - i]
+                    while o is not None and o["k"] == "cast" and o.get("impl", True):
+                        o = f.d(o["a"][0])
+                    if s is None or o is None or s["k"] != "bin" or s["op"] != "<<" or f.is_const(s["a"][1]) is not None or f.is_const(s["a"][0]) is None:
+                        continue
+                    ws, wo = f.ty(s).get("w"), f.ty(o).get("w")
+                    n += 1
+                    R.fn(f)
+                    R.check(ws is not None and wo is not None and ws >= wo, "SHIFT", "%s:mask-as-wide-as-value" % f.name, "include/aws/common/math.fallback.inl:%d in %s()" % ((s.get("loc") or [0])[0], f.name.replace("fb_", "")),
+                            "the %s-bit mask %s covers the %s-bit value %s" % (ws, f.show(s), wo, f.show(o)),
+                            "the mask %s is %s bits wide but the value it scans (%s) has %s: the upper bits are never tested and the variants disagree" % (f.show(s), ws, f.show(o), wo))
+    R.require(n >= 2, "only %d bit-scan masks found in the portable variant" % n)
 
 
 def early_clobber(R, f, e, nm):
@@ -331,6 +364,7 @@ def convert(R, P):
 
 
 MUTANTS = [
+    {"name": "ctz64-int-mask", "file": "include/aws/common/math.fallback.inl", "expect": "SHIFT", "old": "        if (n & (1ULL << idx)) {", "new": "        if (n & (1 << idx)) {"},
     {"name": "asm-output-not-early-clobber", "file": "include/aws/common/math.gcc_x64_asm.inl", "expect": "VARIANTS", "old": '[arg2] "+&r"(b)', "new": '[arg2] "+r"(b)'},
     {"name": "remainder-modulo-old-frequency", "file": "include/aws/common/clock.inl", "expect": "CONVERT", "old": "*remainder = ticks % frequency_ratio;", "new": "*remainder = ticks % old_frequency;"},
     {"name": "u64-saturates-to-u32-max", "file": "include/aws/common/math.gcc_overflow.inl", "expect": "SPEC",
